@@ -106,6 +106,8 @@ def gen_iface(g, k):
         p['getter_fallible'] = p['read'] and r.random() < 0.2
         # a setter taking &self, the value behind a Mutex (dispatched without the interface's write lock)
         p['interior'] = p['write'] and r.random() < 0.4
+        # async getter / setter (they yield to the scheduler once)
+        p['async'] = r.random() < 0.3
         p['doc'] = r.choice(DOCS) if r.random() < 0.4 else None
         I.props.append(p)
     return I
@@ -192,19 +194,24 @@ def emit_iface(g, I):
             o.append(f'    #[zbus(property{pa})]')
             first = False
             rd = f'self.{p["fn"]}.lock().unwrap().clone()' if p['interior'] else f'self.{p["fn"]}.clone()'
+            af = 'async ' if p['async'] else ''
+            ay = 'yield_now().await; ' if p['async'] else ''
             if p['getter_fallible']:
-                o.append(f'    fn {p["fn"]}(&self) -> zbus::fdo::Result<{t}> {{ Ok({rd}) }}')
+                o.append(f'    {af}fn {p["fn"]}(&self) -> zbus::fdo::Result<{t}> {{ {ay}Ok({rd}) }}')
             else:
-                o.append(f'    fn {p["fn"]}(&self) -> {t} {{ {rd} }}')
+                o.append(f'    {af}fn {p["fn"]}(&self) -> {t} {{ {ay}{rd} }}')
         if p['write']:
             o.append('    #[zbus(property)]')
             lab = f'let label = format!("{rs}.{p["member"]}|set|{{}}", lbl(&[v.to_r()])); self.log.lock().unwrap().push(label.clone());'
             slf = '&self' if p['interior'] else '&mut self'
             wr = f'*self.{p["fn"]}.lock().unwrap() = v;' if p['interior'] else f'self.{p["fn"]} = v;'
+            af = 'async ' if p['async'] else ''
+            if p['async']:
+                lab += ' yield_now().await;'
             if p['rejects']:
-                o.append(f'    fn set_{p["fn"]}({slf}, v: {t}) -> zbus::fdo::Result<()> {{ {lab} if fails(&label).is_some() {{ return Err(zbus::fdo::Error::InvalidArgs("rejected".into())); }} {wr} Ok(()) }}')
+                o.append(f'    {af}fn set_{p["fn"]}({slf}, v: {t}) -> zbus::fdo::Result<()> {{ {lab} if fails(&label).is_some() {{ return Err(zbus::fdo::Error::InvalidArgs("rejected".into())); }} {wr} Ok(()) }}')
             else:
-                o.append(f'    fn set_{p["fn"]}({slf}, v: {t}) {{ {lab} {wr} }}')
+                o.append(f'    {af}fn set_{p["fn"]}({slf}, v: {t}) {{ {lab} {wr} }}')
     for s in I.signals:
         if s['doc']:
             o.append(f'    #[doc = {rstr(s["doc"])}]')
